@@ -231,6 +231,8 @@ class AoefSim:
             self.do_touch(op)
         elif kind in ("copy", "rename"):
             self.do_copy(op)
+        elif kind == "merge":
+            self.do_merge(op)
         elif kind == "restart":
             self.restart(op["node"])
             self.record(op, "ok")
@@ -265,6 +267,30 @@ class AoefSim:
         self.record(op, "ok", doc=sha(raw))
         self.trace.append((op["op"], self.files[dst].get("status")))
         self.probes.hit(f"file:{op['op']}-by-another-tool")
+
+    def do_merge(self, op):
+        """A new collection assembled on a node from two loaded ones."""
+        a = self.handles.get(op["h1"])
+        b = self.handles.get(op["h2"])
+        if (
+            a is None or b is None or not a["alive"] or not b["alive"]
+            or a["node"] != b["node"]
+        ):
+            return self.record(op, "skipped")
+        node = self.node(a["node"])
+        reply = node.call(
+            "merge", first=op["h1"], second=op["h2"], handle=op["h"],
+            cut=op["cut"], deep=op.get("deep", False),
+        )
+        self.record(op, reply["outcome"])
+        self.trace.append(("merge", reply["outcome"], op.get("deep", False)))
+        if reply["outcome"] != "value":
+            return
+        self.handles[op["h"]] = {
+            "node": a["node"], "alive": True, "canon": reply["canon"],
+            "type": reply["type"], "audio": a["audio"], "cycles": a["cycles"],
+        }
+        self.probes.hit("merge:collection-from-two-loaded-ones")
 
     def do_touch(self, op):
         """In-place edit of live objects a node already holds."""
@@ -1007,6 +1033,32 @@ class _Gen:
         self.load(p2, n=n, audio=aud1)
         self.load(p2, n=self.other_node(n), audio=aud1)
 
+    def pat_merge(self):
+        """Load the same document twice (or two copies of it) on one node and
+        save a collection assembled from both results."""
+        k = self.ensure_world()
+        audio = self.audio_for_save(k)
+        root = self.root()
+        s1 = self.save(k, root=root, audio=audio, fault=None)
+        n = self.node()
+        l1 = self.load(s1["path"], n=n, audio=audio, fault=None)
+        if self.rng.random() < 0.5:
+            p2 = self.path()
+            self.emit({"op": "copy", "src": s1["path"], "dst": p2})
+            self.saved[p2] = audio
+        else:
+            p2 = s1["path"]
+        l2 = self.load(p2, n=n, audio=audio, fault=None)
+        h = self.next_h
+        self.next_h += 1
+        self.emit({"op": "merge", "h1": l1["h"], "h2": l2["h"], "h": h,
+                   "cut": self.rng.randrange(8),
+                   "deep": self.rng.random() < 0.3})
+        self.loaded.append((h, n, audio))
+        p3 = self.path()
+        self.resave(h, audio=audio, p=p3, fault=None)
+        self.load(p3, audio=audio)
+
     def pat_restart(self):
         k = self.ensure_world()
         n = self.node()
@@ -1068,6 +1120,7 @@ PATTERNS = {
         ("pat_restart", 1),
         ("pat_relocate", 1),
         ("pat_copy", 2),
+        ("pat_merge", 2),
         ("pat_random", 4),
     ],
     "C02": [
@@ -1080,6 +1133,7 @@ PATTERNS = {
         ("pat_fault_heal", 1),
         ("pat_overwrite", 1),
         ("pat_copy", 1),
+        ("pat_merge", 3),
         ("pat_random", 3),
     ],
     "C18": [
@@ -1196,11 +1250,13 @@ CORE_PROBES = {
         "file:copy-by-another-tool",
         "file:rename-by-another-tool",
         "save:path-as-rel",
+        "merge:collection-from-two-loaded-ones",
     ]
     + [f"load:checked:{t}" for t in COLLECTION_TYPE.values()]
     + WRITE_FAULTS
     + READ_FAULTS,
     "C02": SHAPE_PROBES + ["C02:doc-with>=5-lists", "save:of-loaded-object",
+            "merge:collection-from-two-loaded-ones",
             "save:same-live-objects-again"]
     + [f"save:{t}" for t in COLLECTION_TYPE.values()],
     "C18": ["C18:relocated>=2-recordings", "C18:rejected-save-compared",
